@@ -192,6 +192,7 @@ class Ctx:
         self.exhaustive = False
         self.failures = []      # (clause, dev, event, case)
         self.drift = []
+        self.judge_wall = 0.0
         self.ext = []
         self.extra = {}
         self.findings = load_findings()
@@ -212,7 +213,9 @@ class Ctx:
     def judge(self, trace_module, events, cases=None, tag=None, **kw):
         """events: list of dicts with unique 'id' and optional 'cid' (case index)."""
         tag = tag or trace_module
+        tj = time.time()
         fails, stats, nb = judge(trace_module, events, self.work, tag, **kw)
+        self.judge_wall += time.time() - tj
         self.traces += nb
         self.evaluations += len(events)
         byid = None
@@ -282,6 +285,8 @@ class Ctx:
             "model_runs": self.model_runs,
             "known_findings_hit": sorted(hit),
             "model_drift": len(self.drift),
+            "wall_split_s": {"model": round(sum(m["wall_s"] for m in self.model_runs), 1),
+                             "judge": round(self.judge_wall, 1)},
             "spec_coverage_mismatches": sorted(self.ext),
             "failed_clauses": {c: len(l) for c, l in viol.items()},
         }
